@@ -34,26 +34,40 @@ def samples_of(scs, n=3):
 
 
 def pipeline(ctx, monitor, family, scenarios, opt='', consts='', drift_fn=None, rule='', nontrivial=None, assumptions=(),
-             exhaustive=False, extra_cov=None, binary=None):
-    """RUN all scenarios on the real code (sharded over the cores), JUDGE each shard with the monitor, classify, write evidence"""
-    by_sid = {s['sid']: s for s in scenarios}
-    if len(by_sid) != len(scenarios):
+             exhaustive=False, extra_cov=None, binary=None, more=()):
+    """RUN all scenarios on the real code (sharded over the cores), JUDGE each shard with the monitor, classify, write evidence.
+    `more` = further (family, scenarios, opt) groups judged by the same monitor."""
+    groups = [(family, scenarios, opt)] + list(more)
+    allscs = []
+    for fam, scs, o in groups:
+        for s in scs:
+            s['_fam'], s['_opt'] = fam, o
+        allscs += scs
+    by_sid = {s['sid']: s for s in allscs}
+    if len(by_sid) != len(allscs):
         raise Machinery('duplicate scenario ids')
-    k = max(1, min(NCPU, len(scenarios) // 20 + 1))
-    parts = [scenarios[i::k] for i in range(k)]
+    jobs = []
+    for fam, scs, o in groups:
+        k = max(1, min(NCPU, len(scs) // 20 + 1))
+        for i in range(k):
+            part = scs[i::k]
+            if part:
+                jobs.append((fam, o, part, len(jobs)))
 
-    def one(i):
+    def one(job):
+        fam, o, part, i = job
         sp = ctx.path('scn_%s_%d.ndjson' % (monitor, i))
         tp = ctx.path('trace_%s_%d.ndjson' % (monitor, i))
         with open(sp, 'w') as f:
-            for s in parts[i]:
+            for s in part:
                 f.write(json.dumps(s) + '\n')
-        harness_run(ctx, family, sp, tp, opt, binary=binary)
+        harness_run(ctx, fam, sp, tp, o, binary=binary)
         os.remove(sp)
         return tp
 
     with cf.ThreadPoolExecutor(max_workers=NCPU) as ex:
-        traces = list(ex.map(one, range(k)))
+        traces = list(ex.map(one, jobs))
+    scenarios = allscs
     drift = None
     if drift_fn:
         d, compared, dex = drift_fn(ctx, traces)
@@ -463,13 +477,24 @@ def run_c18(ctx):
     build_harness(ctx)
     quick = ctx.tier == 'quick'
     model_check(ctx, 'Writer', 'Writer_ideal.cfg')
+    reader_models(ctx)
     scs = harness_gen(ctx, 'muxfault', 12 if quick else 120, ctx.seed, 4)
+    clean = demux_scenarios(ctx, ['Demux_gen_psi_quick.cfg', 'Demux_gen_pes_quick.cfg'], 'fg', sample=10 if quick else 200)
+    rnd = harness_gen(ctx, 'demux', 6 if quick else 100, ctx.seed, 2)
+    rscs = []
+    for s in clean + rnd:
+        v = dict(s)
+        v['kind'] = 'rfault'
+        rscs.append(v)
     return pipeline(
-        ctx, 'Mon_C18', 'mux', scs,
-        rule='fault enumeration: for each base muxer history (last packet needing 0/1/2/3/many stuffing bytes, WriteTables, WritePacket) one run per '
-             'index of the writer\'s Write calls x {one-shot, permanent}; distinct by (history, index, mode)',
+        ctx, 'Mon_C18', 'mux', scs, more=[('rfault', rscs, '' if quick else 'deep')],
+        rule='fault enumeration. Writer: for each base muxer history (last packet needing 0/1/2/3/many stuffing bytes, WriteTables, WritePacket) one run '
+             'per index of the writer\'s Write calls x {one-shot, permanent}. Reader: for each stream x {explicit, auto} x {NextData, NextPacket} one run per '
+             'byte offset (every offset of streams <= 600 bytes and of the first 400 bytes, sampled beyond; every offset in thorough) x {partial read before '
+             'the failure, none} x {seekable, not}; distinct by (history/stream, index/offset, mode)',
         exhaustive=False,
-        assumptions=['per-call reading of "byte count no larger than what the writer accepted"'])
+        assumptions=['per-call reading of "byte count no larger than what the writer accepted"',
+                     'reader half: deliveries before the failing call are compared with the fault-free run of the same configuration'])
 
 
 PROPS = {
